@@ -8,8 +8,9 @@ What the decorator itself decides is taken from `PedVerif.Gen.Frozen`, which the
 every run: the options handed to `dataclass(...)` (as Boolean functions of the decorator parameters), the shape of the
 bodies of `copy_with` / `deep_copy_with` (`CopyBody`), and the order inside `new_post_init`.
 
-Heap: a Python value is a tree whose mutable containers (list / dict / set) and tuples carry an identity; atoms
-(None / int / str) are pure values (CPython shares them).  `deepcopy` threads an allocator (`next`); the invariant
+Heap: a Python value is a tree whose mutable nodes (list / dict / set, and instances of plain user classes: hashable by
+identity, compared by identity, yet mutable), tuples and frozensets carry an identity; atoms (None / int / str) are pure
+values (CPython shares them).  `deepcopy` threads an allocator (`next`); the invariant
 "every live identity is below the allocator" makes every identity it hands out fresh.  A class is the list of its
 layers, most derived first (`class B(A)` = `B :: A :: …`).
 -/
@@ -24,12 +25,26 @@ deriving DecidableEq, Repr
 
 inductive Kind where
   | list | dict | set                                  -- dict items are flattened `[k0, v0, k1, v1, …]`, canonically ordered by the harness
+  | fset                                               -- frozenset: immutable and hashable, but `copy.deepcopy` always builds a new one (`__reduce_ex__`)
+  | obj                                                -- instance of a plain user class (no `__eq__` / `__hash__` / `__deepcopy__`): mutable,
+                                                       -- hashable (identity hash), `==` is identity; items = its attribute values in name order
 deriving DecidableEq, Repr
+
+/-- can the node be changed in place (everything with an identity except tuples and frozensets) -/
+def Kind.mutable : Kind → Bool
+  | .fset => false
+  | _ => true
+
+/-- which builtin containers compare equal / ordered across types: `{1} == frozenset({1})`, nothing else mixes -/
+def Kind.eqKey : Kind → Nat
+  | .list => 0 | .dict => 1 | .set => 2 | .fset => 2 | .obj => 3
+
+def Kind.setLike (k : Kind) : Bool := k.eqKey == 2
 
 inductive Obj where
   | atom (a : Atom)
   | tup (id : Nat) (items : List Obj)                  -- immutable, but has an identity (`is`)
-  | box (k : Kind) (id : Nat) (items : List Obj)       -- mutable node
+  | box (k : Kind) (id : Nat) (items : List Obj)       -- node that `deepcopy` always re-creates (mutable unless `fset`)
 deriving Repr
 
 instance : Inhabited Obj := ⟨.atom .none⟩
@@ -39,7 +54,7 @@ mutual
 def Obj.mutIds : Obj → List Nat
   | .atom _ => []
   | .tup _ items => mutIdsL items
-  | .box _ i items => i :: mutIdsL items
+  | .box k i items => if k.mutable then i :: mutIdsL items else mutIdsL items
 def mutIdsL : List Obj → List Nat
   | [] => []
   | x :: xs => x.mutIds ++ mutIdsL xs
@@ -57,16 +72,56 @@ def allIdsL : List Obj → List Nat
 end
 
 mutual
-/-- Python `==` on this value universe: structural, identities ignored (dict / set items are in canonical order) -/
+/-- "the same value": structural equality, identities ignored at every node (dict / set items are in canonical order).
+    An instance of a plain class is the same value as another one iff their attribute values are (same class, equal state);
+    on values without such instances this is Python's `==` (`seq_eq_veq_of_noObj` in `Props/C11`). -/
+def Obj.seq : Obj → Obj → Bool
+  | .atom a, .atom b => a == b
+  | .tup _ xs, .tup _ ys => seqL xs ys
+  | .box k _ xs, .box k' _ ys => k == k' && seqL xs ys
+  | _, _ => false
+def seqL : List Obj → List Obj → Bool
+  | [], [] => true
+  | x :: xs, y :: ys => x.seq y && seqL xs ys
+  | _, _ => false
+end
+
+mutual
+/-- Python `==` on this value universe: structural on builtin containers (set == frozenset allowed), **identity** on
+    instances of plain classes (`object.__eq__`) -/
 def Obj.veq : Obj → Obj → Bool
   | .atom a, .atom b => a == b
   | .tup _ xs, .tup _ ys => veqL xs ys
-  | .box k _ xs, .box k' _ ys => k == k' && veqL xs ys
+  | .box k i xs, .box k' j ys =>
+      if k == .obj || k' == .obj then k == k' && i == j else k.eqKey == k'.eqKey && veqL xs ys
   | _, _ => false
 def veqL : List Obj → List Obj → Bool
   | [], [] => true
   | x :: xs, y :: ys => x.veq y && veqL xs ys
   | _, _ => false
+end
+
+mutual
+/-- `hash(v)` works: atoms, frozensets and instances of plain classes (identity hash, whatever they hold) are hashable,
+    list / dict / set are not, a tuple is iff all its items are -/
+def Obj.hashable : Obj → Bool
+  | .atom _ => true
+  | .tup _ items => hashableL items
+  | .box k _ _ => k == .fset || k == .obj
+def hashableL : List Obj → Bool
+  | [] => true
+  | x :: xs => x.hashable && hashableL xs
+end
+
+mutual
+/-- no instance of a plain class anywhere inside -/
+def Obj.noObj : Obj → Bool
+  | .atom _ => true
+  | .tup _ items => noObjL items
+  | .box k _ items => k != .obj && noObjL items
+def noObjL : List Obj → Bool
+  | [] => true
+  | x :: xs => x.noObj && noObjL xs
 end
 
 /-- Python `is`: identity of the node; atoms are pure values -/
@@ -82,7 +137,9 @@ def identL : List Obj → List Obj → Bool
   | _, _ => false
 
 mutual
-/-- `copy.deepcopy` (no aliasing inside the value: the memo is not modelled): every mutable node gets the next free identity;
+/-- `copy.deepcopy` (no aliasing inside the value: the memo is not modelled): every mutable node — list / dict / set, and an
+    instance of a plain class, which is rebuilt by `_reconstruct` with a deep copy of its `__dict__` — and every frozenset
+    (`__reduce_ex__`: a new one from the copied members) gets the next free identity;
     atoms are returned as they are; a tuple keeps its identity iff all copied items are identical to the old ones
     (`_deepcopy_tuple`), otherwise it is a new tuple -/
 def deepcopy : Obj → Nat → Obj × Nat
@@ -113,8 +170,10 @@ def Obj.vlt : Obj → Obj → Option Bool
   | .atom (.int a), .atom (.int b) => some (decide (a < b))
   | .atom (.str a), .atom (.str b) => some (strLt a b)
   | .tup _ xs, .tup _ ys => lexLt xs ys
-  | .box .list _ xs, .box .list _ ys => lexLt xs ys
-  | .box .set _ xs, .box .set _ ys => some (xs.all (fun x => ys.any (fun y => x.veq y)) && decide (xs.length < ys.length))
+  | .box k _ xs, .box k' _ ys =>
+      if k == .list && k' == .list then lexLt xs ys
+      else if k.setLike && k'.setLike then some (xs.all (fun x => ys.any (fun y => x.veq y)) && decide (xs.length < ys.length))
+      else none                                          -- dicts, instances of plain classes, mixed kinds: TypeError
   | _, _ => none
 /-- sequence comparison: the first pair of items that are not equal decides (with their own `<`), otherwise the lengths -/
 def lexLt : List Obj → List Obj → Option Bool
@@ -198,7 +257,12 @@ def stdOrderOk : List FieldR → Bool → Bool
       if hasDefault f then stdOrderOk fs true else (!seen && stdOrderOk fs seen)
     else stdOrderOk fs seen
 
-def mutableDefault (f : FieldD) : Bool := match f.dflt with | .value (.box _ _ _) => true | _ => false
+/-- `dataclasses` refuses a default whose class has `__hash__ = None` (list / dict / set); a frozenset or an instance of a
+    plain class is accepted -/
+def mutableDefault (f : FieldD) : Bool :=
+  match f.dflt with
+  | .value (.box k _ _) => k == .list || k == .dict || k == .set
+  | _ => false
 
 /-- class-definition-time errors of `dataclass` for one class statement -/
 def layerDefOk (l : Layer) (rest : Cls) : Bool :=
@@ -475,13 +539,13 @@ def isFrozenCls (c : Cls) : Bool :=
   | [] => false
   | l :: _ => l.frozen
 
-/-- `hash(a)`: `.ok t` = the hash is `hash(t)` for the tuple `t` (`_hash_add`); TypeError if `t` contains a mutable
-    node, or if the class is not frozen (`eq=True, frozen=False` sets `__hash__ = None`) -/
+/-- `hash(a)`: `.ok t` = the hash is `hash(t)` for the tuple `t` (`_hash_add`); TypeError if `t` is not hashable
+    (a list / dict / set directly or inside tuples), or if the class is not frozen (`eq=True, frozen=False` sets `__hash__ = None`) -/
 def hashOp (a : Inst) : Except Exc (List Obj) :=
   if !isFrozenCls a.cls then .error .typeError else
   match tupleOf a (cmpFields a.cls) with
   | .error e => .error e
-  | .ok t => if (mutIdsL t).isEmpty then .ok t else .error .typeError
+  | .ok t => if hashableL t then .ok t else .error .typeError
 
 /-- the nearest class (self first) that generated ordering methods -/
 def orderPart : Cls → Option Cls
